@@ -132,6 +132,10 @@ def run(chk):
     corner = [["", ""], [""], ["A"], ["", "A", "AA", "AAA"], ["AB", "B"], ["AB", "BA"], ["AAAA", "AAA", "AA"],
               ["ABC", "CBA", "ABC"], ["A", "B", "C", "D"], ["AB", ""], ["XA", "AY"], ["ü∆", "ü", "∆∆"],
               ["CAAA", "CDDD", "CADA", "CAAA"]]
+    # the documented default radius (max_edits omitted) is 1
+    for xs in corner[:8] + [["CASSLGF", "CASSLGY", "CASSLG", "CQSSLGF"]]:
+        add("symdel|default-max_edits", xs, 1, model=False, fn=lambda xs, k: nn.symdel(xs))
+        add("nearest_neighbor|default-max_edits", xs, 1, model=False, fn=lambda xs, k: nn.nearest_neighbor(xs))
     for xs in corner:
         for k in (1, 2, 3, 5):
             add("symdel|corner", xs, k)
@@ -215,7 +219,8 @@ def run(chk):
         return rep
 
     b.run(on_violation)
-    if not chk.skip_large("the 47 011-sequence collection"):
+    probe_xs = gen.planted(rng, 3000)[0]
+    if not chk.skip_large("the 47 011-sequence collection", probe=lambda: nn.symdel(probe_xs, max_edits=1)):
         large_collection(chk, nn, rng, 47011 if not thorough else 70001)
 
 
